@@ -249,6 +249,45 @@ pub fn c19(a: &Args) -> (Stats, String) {
                         }
                     }
                 }
+                // round 9: every letter of a special literal replaced by its aliases under partial comparisons (bit 7 set,
+                // bit 5 or bit 6 flipped): `(x & 0x5F) == (y & 0x5F)`-style matching accepts bytes that are not letters
+                for lit in ["nan", "inf", "infinity"] {
+                    let l = lit.as_bytes();
+                    for pos in 0..l.len() {
+                        for alias in [l[pos] | 0x80, l[pos].to_ascii_uppercase() | 0x80, l[pos] ^ 0x40, l[pos] ^ 0x10, l[pos] & 0x1F] {
+                            let mut v = l.to_vec();
+                            v[pos] = alias;
+                            for sign in [b"".as_ref(), b"-"] {
+                                for suf in [b"".as_ref(), b"x"] {
+                                    let mut s = sign.to_vec();
+                                    s.extend_from_slice(&v);
+                                    s.extend_from_slice(suf);
+                                    one_input(st, &s, "SPECIAL");
+                                }
+                            }
+                        }
+                    }
+                }
+                // round 9: exponents of 4..6 digits compensated by digit runs of the same length (the value is 1 or 2.5)
+                for n in [1000usize, 9999, 10000, 99999, 100000, 100001] {
+                    let zeros = vec![b'0'; n];
+                    let mut a = b"1".to_vec();
+                    a.extend_from_slice(&zeros);
+                    a.extend_from_slice(format!("e-{}", n).as_bytes());
+                    one_input(st, &a, "STRUCTURED");
+                    let mut b = b"0.".to_vec();
+                    b.extend_from_slice(&zeros[1..]);
+                    b.extend_from_slice(format!("1e{}", n).as_bytes());
+                    one_input(st, &b, "STRUCTURED");
+                    let mut c = b"-25".to_vec();
+                    c.extend_from_slice(&zeros);
+                    c.extend_from_slice(format!("e-{}x", n + 1).as_bytes());
+                    one_input(st, &c, "STRUCTURED");
+                    let mut d = b"+.".to_vec();
+                    d.extend_from_slice(&zeros);
+                    d.extend_from_slice(format!("25E+0{} ", n + 1).as_bytes());
+                    one_input(st, &d, "STRUCTURED");
+                }
                 for miss in ["na", "n", "in", "i", "infinit", "infinitx", "nax", "1nan", ".inf", "einf", "-", "+", "--1", "+-1", "-+1", "-.", "-e", "-e5", "-.e5", "+.5e-1x"] {
                     one_input(st, miss.as_bytes(), "SPECIAL");
                 }
